@@ -791,7 +791,7 @@ def gen_op(r, h):
         mag = float(np.max(np.abs(vals)))
         rng_ = vals.max(axis=0) - vals.min(axis=0)
         small = float(np.min(rng_[rng_ > 0])) if np.any(rng_ > 0) else 1.0
-        if mag > 2e3 or small < 2e-3:
+        if mag > 5e2 or small < 1e-2:
             name = r.choice(["scale_range", "revert_scaling"]) if ds.is_scaled() else "scale_range"
     if name == "revert_scaling":
         f = ds.get_scaling_factor()
